@@ -703,7 +703,7 @@ func c20Schedules(r *eng.Run) {
 		threads int
 		max     int
 	}
-	variants := []variant{{"written-vars/2-threads", false, 2, 2, 20000}}
+	variants := []variant{{"written-vars/2-threads", false, 2, 2, 4000}}
 	if r.Thorough() {
 		variants = append(variants, variant{"all-vars/2-threads", true, 2, 2, 6000}, variant{"written-vars/3-threads", false, 2, 3, 6000}, variant{"all-vars/3-threads", true, 1, 3, 3000})
 	} else {
